@@ -41,6 +41,8 @@ import EdbVerif.Lemmas.QuoteIdent
 import EdbVerif.Lemmas.QuotePg
 import EdbVerif.Lemmas.QuotePgName
 import EdbVerif.Lemmas.QuotePgDollar
+import EdbVerif.Lemmas.QuotePgTags
+import EdbVerif.Lemmas.QuoteParam
 import EdbVerif.Lemmas.QuoteAll
 import EdbVerif.Lemmas.QuoteDollarTotal
 import EdbVerif.Model.QuoteOld
@@ -315,58 +317,72 @@ theorem pg_name_counterexample (hash : List Char → List Char) :
     PgLex.lexIdent (pgQuoteIdentRaw n2) = .ok (.ident (List.replicate 21 (Char.ofNat 0x540d)), []) := by
   refine ⟨by rfl, by rfl, by decide, by decide, by rfl, by rfl⟩
 
-/-! ## dbops: bodies inside FIXED dollar tags
+/-! ## dbops: bodies inside dollar tags (after f6e6d09), `COMMENT ON` splices (after 4eafb00)
 
-`PLTopBlock.to_string` wraps every DDL block in `DO LANGUAGE plpgsql $__$ … $__$`,
-`dbops.CreateFunction` wraps the function text in `$____funcbody____$ … $____funcbody____$`.
-The tags are constants: unlike `dollar_quote_literal` nothing checks that the
-body (which carries quoted literals: enum labels, annotation values, defaults,
-function source) does not contain them. -/
+`PLTopBlock.to_string` wraps every DDL block in `DO LANGUAGE plpgsql <tag> … <tag>`,
+`dbops.CreateFunction` wraps the function text likewise; the tag is now chosen
+against the body: `$__$`, `$__1$`, `$__2$`, … (resp. `$____funcbody____$`,
+`$____funcbody1____$`, …) until `tag not in body + tag[:-1]`. -/
 
-/- FULL STATEMENT (false): ∀ body, lexDollarStr (wrap doName body ++ rest) = .ok (body, rest) -/
+/-- the `DO` block `<tag>\\n{body}\\n<tag>` (`wrapNl body` is what sits between the tags): for EVERY
+    body the loop finds a tag (within `len(body)+2` candidates) and PostgreSQL reads exactly the
+    wrapped content back, whatever follows -/
+theorem pg_do_block (body rest : List Char) :
+    ∃ t, doTag body = some t ∧
+      PgLex.lexDollarStr (t ++ wrapNl body ++ t ++ rest) = .ok (wrapNl body, rest) := by
+  obtain ⟨t, ht⟩ := doTag_isSome body
+  exact ⟨t, ht, doBlock_lex body t rest ht⟩
 
-/-- the `DO` body is read back exactly when `$__$` does not occur in `body ++ $__` -/
-theorem pg_do_block_partial (body rest : List Char)
+/-- the function text: likewise -/
+theorem pg_funcbody (body rest : List Char) :
+    ∃ t, funcTag body = some t ∧
+      PgLex.lexDollarStr (t ++ wrapNl body ++ t ++ rest) = .ok (wrapNl body, rest) := by
+  obtain ⟨t, ht⟩ := funcTag_isSome body
+  exact ⟨t, ht, funcBody_lex body t rest ht⟩
+
+/-- a FIXED tag is only safe for bodies that do not contain it (kept: this is what the old code relied on) -/
+theorem pg_fixed_tag (body rest : List Char)
     (h : findSub ('$' :: PgLex.doName ++ ['$']) (body ++ '$' :: PgLex.doName) = none) :
     PgLex.lexDollarStr (PgLex.wrap PgLex.doName body ++ rest) = .ok (body, rest) :=
   PgLex.doTag_lex body rest h
 
-/-- the function text is read back exactly when the tag does not occur in `text ++ $____funcbody____` -/
-theorem pg_funcbody_partial (body rest : List Char)
-    (h : findSub ('$' :: PgLex.funcName ++ ['$']) (body ++ '$' :: PgLex.funcName) = none) :
-    PgLex.lexDollarStr (PgLex.wrap PgLex.funcName body ++ rest) = .ok (body, rest) :=
-  PgLex.funcTag_lex body rest h
+/-- `'COMMENT ON {type} {id} IS '` with `get_id_in_literal`: the string constant is read back with
+    the object id intact (`type` is a key word without quotes; no NUL anywhere) -/
+theorem pg_comment_on (T q rest : List Char) (hT : ∀ c ∈ T, c ≠ '\'' ∧ c.toNat ≠ 0)
+    (hq0 : ∀ c ∈ q, c.toNat ≠ 0)
+    (hr : rest.head? ≠ some '\'') (hc : PgLex.continues false rest = false) :
+    PgLex.lexStd (commentOnStr T q ++ rest) =
+      .ok ("COMMENT ON ".toList ++ T ++ [' '] ++ q ++ " IS ".toList, rest) := by
+  have e : commentOnStr T q = pgQuoteLiteral ("COMMENT ON ".toList ++ T ++ [' '] ++ q ++ " IS ".toList) := by
+    have h1 : replaceChar '\'' ['\'', '\''] "COMMENT ON ".toList = "COMMENT ON ".toList := by decide
+    have h2 : replaceChar '\'' ['\'', '\''] " IS ".toList = " IS ".toList := by decide
+    have h3 := PgLex.noQuote_replace T (fun c hc => (hT c hc).1)
+    have h4 : replaceChar '\'' ['\'', '\''] [' '] = [' '] := by decide
+    have hd : ∀ a b : List Char, replaceChar '\'' ['\'', '\''] (a ++ b) =
+        replaceChar '\'' ['\'', '\''] a ++ replaceChar '\'' ['\'', '\''] b := by
+      intro a b; simp [replaceChar, List.flatMap_append]
+    simp only [commentOnStr, pgQuoteLiteral, hd, h1, h2, h3, h4]
+  rw [e]
+  refine pg_literal _ rest ?_ hr hc
+  intro c hc'
+  simp only [List.mem_append] at hc'
+  rcases hc' with (((h | h) | h) | h) | h
+  · revert c; decide
+  · exact (hT c h).2
+  · simp at h; subst h; decide
+  · exact hq0 c h
+  · revert c; decide
 
-/-- a correctly quoted literal `'$__$'` (an enum label, say) inside the block ends the `DO` body:
-    PostgreSQL takes `'` as the body and continues with `'$__$` as top-level SQL;
-    same for the function-body tag -/
-theorem pg_do_block_counterexample :
-    PgLex.lexDollarStr (PgLex.wrap PgLex.doName (pgQuoteLiteral ['$', '_', '_', '$'])) =
-      .ok (['\''], ['\'', '$', '_', '_', '$']) ∧
-    PgLex.lexDollarStr (PgLex.wrap PgLex.funcName (pgQuoteLiteral ('$' :: PgLex.funcName ++ ['$']))) =
-      .ok (['\''], '\'' :: '$' :: PgLex.funcName ++ ['$']) := by
-  exact ⟨by rfl, by rfl⟩
+/-! ## Parameters: `param_to_str` (after 237fcc6, 638d351) -/
 
-/-! ## Numeric names (`allow_num=True`: parameters, pointer position)
-
-`([1-9]\\d* | 0)` uses the Unicode `\\d`; the tokenizer reads ASCII digits only.
-(Integer tokens are outside `Model/Lex`; the parameter form `$name` is inside.) -/
-
-/-- `param_to_str('1٢')` = `$1٢` (U+0662 is a decimal digit for CPython): the
-    tokenizer reads the parameter `$1` and stops in front of `٢` -/
-theorem edgeql_param_counterexample (U : UClass) (P : PyUnicode)
-    (h1 : P.isdecimal (Char.ofNat 0x662) = true) (h2 : U.alpha (Char.ofNat 0x662) = false) :
-    paramToStr P ['1', Char.ofNat 0x662] = ['$', '1', Char.ofNat 0x662] ∧
-    lexOne U ['$', '1', Char.ofNat 0x662] = .ok (⟨.parameter, .str ['1']⟩, [Char.ofNat 0x662]) := by
-  have hd : pyIsDecimal P (Char.ofNat 0x662) = true := by simp only [pyIsDecimal]; simpa using h1
-  have ha : isAlpha U (Char.ofNat 0x662) = false := by simp only [isAlpha]; simpa using h2
-  have hns : Quote.hasNamespaceSep ['1', Char.ofNat 0x662] = false := by decide
-  have hmn : matchNum P ['1', Char.ofNat 0x662] = true := by simp [matchNum, hd]
-  constructor
-  · simp [paramToStr, quoteIdent, needsQuoting, hns, hmn, pyIsDecimal, isDigit]
-  · have ht : isTagChar U (Char.ofNat 0x662) = false := by
-      simp [isTagChar, ha, isDigit]
-    simp [lexOne, lexDollar, isAlpha, isAsciiLetter, isDigit, isTagChar, spanTag, h2]
+/-- `param_to_str` is read back as ONE parameter token whose value is the
+    original name, for every name some parameter form can carry
+    (`paramExpressible`), under the table inclusion `Compat P U`.  Purely
+    numeric names are left bare only when they are ASCII digits. -/
+theorem edgeql_param (U : UClass) (P : PyUnicode) (hc : Compat P U) (s rest : List Char)
+    (h : paramExpressible P s = true) (hd : paramDelim U (paramQuoted P s) rest) :
+    lexOne U (paramToStr P s ++ rest) = .ok (⟨.parameter, .str s⟩, rest) :=
+  paramToStr_lex U P hc s rest h hd
 
 /-! ## What the fixes repaired
 
@@ -449,6 +465,27 @@ theorem fixed_ident (U : UClass) (P : PyUnicode)
     have hns : Quote.hasNamespaceSep [Char.ofNat 0xb2, 'a'] = false := by decide
     simp [quoteIdent, needsQuoting, hns, hm, hl, hr, hal, hb, hne]
 
+/-- before f6e6d09 the tags were constants: a correctly quoted literal `'$__$'` (an enum label)
+    ended the `DO` body (`'` is read as the body, the rest runs as top-level SQL); now the loop
+    moves on to `$__1$` -/
+theorem fixed_do_block :
+    PgLex.lexDollarStr (PgLex.wrap PgLex.doName (pgQuoteLiteral ['$', '_', '_', '$'])) =
+      .ok (['\''], ['\'', '$', '_', '_', '$']) ∧
+    doTag (pgQuoteLiteral ['$', '_', '_', '$']) = some ['$', '_', '_', '1', '$'] := by
+  exact ⟨by rfl, by decide⟩
+
+/-- before 237fcc6 / 638d351 `param_to_str('1٢')` was `$1٢` (read as `$1` + stray `٢`); now `` $`1٢` `` -/
+theorem fixed_param (U : UClass) (P : PyUnicode) (h2 : U.alpha (Char.ofNat 0x662) = false)
+    (h3 : P.isalpha (Char.ofNat 0x662) = false) :
+    lexOne U ['$', '1', Char.ofNat 0x662] = .ok (⟨.parameter, .str ['1']⟩, [Char.ofNat 0x662]) ∧
+    paramToStr P ['1', Char.ofNat 0x662] = '$' :: quoteIdentRaw ['1', Char.ofNat 0x662] := by
+  constructor
+  · simp [lexOne, lexDollar, isAlpha, isAsciiLetter, isDigit, isTagChar, spanTag, h2]
+  · have ha : pyIsAlpha P (Char.ofNat 0x662) = false := by simp only [pyIsAlpha]; simpa using h3
+    have hd : isDigit (Char.ofNat 0x662) = false := by decide
+    have hne : (Char.ofNat 0x662) ≠ '_' := by decide
+    simp [paramToStr, quoteIdent, hd, hne, isDigit, pyIsAlpha, isAsciiLetter, h3]
+
 /-! ## Non-vacuity: the guards are met by non-trivial inputs -/
 
 example : noNul "it's a \\ \"test\"\n\t$$ \x01".toList = true := by decide
@@ -461,6 +498,8 @@ example : identExpressible PyUnicode.ascii "abort".toList = true ∧
     quoteIdent PyUnicode.ascii "abort".toList false false false = "abort".toList := by decide
 example : identExpressible PyUnicode.ascii "my `odd` name".toList = true := by decide
 example : identExpressible PyUnicode.ascii "__type__".toList = true := by decide
+example : paramExpressible PyUnicode.ascii "my param".toList = true ∧ paramExpressible PyUnicode.ascii "10".toList = true ∧
+    paramToStr PyUnicode.ascii "10".toList = "$10".toList := by decide
 example : Compat PyUnicode.ascii UClass.ascii := by
   refine ⟨fun c h => ?_, fun c h => ?_⟩
   · simp only [pyIsAlpha, PyUnicode.ascii] at h
